@@ -279,6 +279,19 @@ def gen_case(rng, malformed=False):
         else:
             o = dict(op="gjk", other=gen_other(rng, cur))
         ops.append(o)
+    if not malformed and rng.random() < 0.15:
+        # a trajectory player: ONE pose buffer (or one slot of a pose stack) is overwritten for every step
+        how = rng.choice(["inplace", "inplace", "stack_inplace"])
+        slot = rng.randrange(3)
+        for o in ops:
+            if o["op"] == "update":
+                pose = o.get("pose") or gen_pose(rng)
+                for key in ("stack", "pose_a", "pose_b", "i"):
+                    o.pop(key, None)
+                o.update(src=how, pose=pose)
+                if how == "stack_inplace":
+                    o["i"] = slot
+                cur = pose
     dirs = [[1.0, 0, 0], [0, -1.0, 0], [0, 0, 1.0]] + [gen_dir(rng) for _ in range(4)]
     if track is not None:
         dirs[0] = list(track)      # the final battery starts with the tracked direction once more
@@ -531,7 +544,7 @@ def run(tier, seed, replay=None):
         changed = tables_c14.generate(cm.REPO, TABLE)
         R.cov["tables_changed"] = bool(changed)
         tables_ok = True
-    except TablesError as e:
+    except (TablesError, OSError, SyntaxError, ValueError) as e:
         tables_ok = False
         R.proof_broken.append(f"Gen/CollidersTables.v cannot be regenerated (source no longer has the modelled shape): {e}")
     R.check_proofs(PROOF_FILES)
